@@ -388,6 +388,68 @@ WORKFLOWS = {
 }
 
 
+STATEFUL = (
+    "extract_sequence", "blocks", "is_overlapping", "strand", "parent", "has_sequence", "chromosome_location",
+    "chromosome_span", "chromosome_gaps_location", "chunk_relative_span", "chunk_relative_gaps_location",
+    "get_spliced_sequence", "get_reference_sequence", "get_genomic_sequence", "chunk_relative_codon_locations",
+    "chromosome_codon_locations", "scan_chunk_relative_codon_locations", "scan_chromosome_codon_locations",
+    "translate", "translate(args)", "has_in_frame_stop", "get_transcript_sequence", "get_cds_sequence",
+    "get_protein_sequence", "get_protein_sequence(args)", "hierarchical_children_guids", "interval_guids_to_collections",
+    "children", "non_variant_children", "query_by_interval_guids", "alternative_genomic_sequence",
+    "parent_with_alternative_sequence", "to_gff", "to_gff(args)", "to_gff(parent,pq)", "export_qualifiers",
+    "export_qualifiers(parent)", "to_dict", "__hash__", "__str__", "lift_over_to_first_ancestor_of_type", "location",
+    "sequence", "location_on_parent", "getitem_slice", "reverse_complement", "chunk_relative_frames", "num_codons",
+    "has_valid_stop", "scan_codons", "optimize_blocks", "gaps_location", "lift_child_location_to_parent",
+)
+
+
+def _stateful_ops(kind):
+    ops = [o for o in REGISTRY[kind] if o.name in STATEFUL]
+    return ops or REGISTRY[kind]
+
+
+def _derive_ops(kind):
+    return [o for o in REGISTRY[kind] if o.result]
+
+
+def _focused_session(pb, rng, s, roots):
+    """Short, targeted history: fill state on X, derive Y from X, interrogate Y (and X again), in seed-chosen order.
+    Chains up to depth 3."""
+    steps = []
+    x = rng.choice(roots)
+    chain = [x]
+    for depth in range(rng.randint(1, 3)):
+        cur = chain[-1]
+        kind = pb.objects[cur]["kind"]
+        # optionally warm up the current object first
+        for _ in range(rng.choice([0, 1, 1, 2])):
+            op = _pick_op(rng, _stateful_ops(kind) if rng.random() < 0.7 else REGISTRY[kind])
+            st = pb.call_step(s, cur, op, store_p=0.0)
+            if st:
+                steps.append(st)
+        dops = _derive_ops(kind)
+        if not dops:
+            break
+        st = None
+        for _ in range(4):
+            st = pb.call_step(s, cur, _pick_op(rng, dops), store_p=1.0)
+            if st and "store" in st:
+                break
+        if not st or "store" not in st:
+            break
+        steps.append(st)
+        chain.append(st["store"])
+    # interrogate everything in the chain, newest first most of the time
+    for _ in range(rng.randint(2, 6)):
+        cur = chain[-1] if rng.random() < 0.6 else rng.choice(chain)
+        kind = pb.objects[cur]["kind"]
+        op = _pick_op(rng, _stateful_ops(kind) if rng.random() < 0.6 else REGISTRY[kind])
+        st = pb.call_step(s, cur, op, store_p=0.1)
+        if st:
+            steps.append(st)
+    return steps, chain
+
+
 def _ops_for(kind, workflow):
     pats = WORKFLOWS[workflow]
     ops = [o for o in REGISTRY[kind] if any(p in o.name for p in pats)]
@@ -545,8 +607,18 @@ def gen_plan(rng, check="C10", size=1, max_steps=60, known_avoid=()):
     nsess = rng.randint(2, 4)
     sessions = []
     style = rng.random()
+    focused = rng.random() < 0.4
+    if focused:
+        nsess = rng.randint(1, 3)
+        style = 1.0
     for s in range(nsess):
         steps = []
+        if focused:
+            steps, chain = _focused_session(pb, rng, s, roots)
+            if rng.random() < 0.5:
+                roots.extend(chain[1:])
+            sessions.append(steps)
+            continue
         if style < 0.3 and s < 2:
             # covering walk: permutation of the whole accessor list of one object, from two sessions
             target = roots[0] if rng.random() < 0.5 else rng.choice(roots)
